@@ -304,6 +304,31 @@ def const(ctx: Any) -> List[Ob]:
                 if (s2 is w_ or cfgg.path_avoiding(s2, lambda n: n is w_, lambda n: n is t, skip_start=False) is not None) and cfgg.path_avoiding(w_, lambda n: n is S_, lambda n: n is t) is not None:
                     sp_ok, sp_why = False, f'a wait (line {w_.line}) lies between the spacing test and the probe at line {S_.line}'
     obs.append(ob(R, g, spacing[0][0].ast if spacing else 'if now < next_time', 'a probe is sent only when the clock, read after the last wait, has reached the next-probe time (an early wake-up goes back to waiting)', sp_ok, sp_why))
+    # exactly three probes on the conflict-free path: the whole loop evaluated with the counter tracked (start value, bound,
+    # step), every spacing test answered `due`, no holder of the name in the cache
+    conflict_calls = {norm(c) for c in ast.walk(g.node) if isinstance(c, ast.Call) and call_name(c) == 'current_entry_with_name_and_alias'}
+    atoms3: Dict[str, Any] = {norm(t.ast): due for t, due in spacing}
+    atoms3.update({c: None for c in conflict_calls})
+    atoms3[g.params[3]] = False
+
+    def eff3(node: Any, evl: Any) -> List[Any]:
+        return ['PROBE' for c in fd.node_calls(node, evl) if call_name(c) == 'async_send']
+
+    oc3, und3 = fd.run_paths(prog, g.module, cfgg, atoms3, eff3, loop_bound=8)
+    counts = sorted({sum(1 for x in t if x == 'PROBE') for t in oc3})
+    obs.append(ob(R, g, 'i = 0; while i < _REGISTER_BROADCASTS: ... i += 1', 'with no conflict the probe loop sends exactly three probes (start value, bound and step of the counter evaluated together)', counts == [3] and not und3 and bool(conflict_calls), f'probes sent on the conflict-free paths: {counts}; undecided {und3}'))
+    # ... and the conflict arm is entered exactly when the cache reports a holder of the name
+    def eff4(node: Any, evl: Any) -> List[Any]:
+        out = ['PROBE' for c in fd.node_calls(node, evl) if call_name(c) == 'async_send']
+        if node.kind == 'raise':
+            out.append('RAISE')
+        return out
+
+    atoms4 = dict(atoms3)
+    atoms4.update({c: 'holder' for c in conflict_calls})
+    atoms4[g.params[2]] = False
+    oc4, _ = fd.run_paths(prog, g.module, cfgg, atoms4, eff4, loop_bound=2)
+    obs.append(ob(R, g, 'while self.cache.current_entry_with_name_and_alias(info.type, info.name)', 'a holder of the name in the cache stops the registration before any probe is sent (renaming not allowed: NonUniqueNameException); no holder, no exception', bool(oc4) and all(t and t[0] == 'RAISE' for t in map(strip_ret, oc4)) and all('RAISE' not in t for t in oc3), f'with a holder: {sorted(set(map(strip_ret, oc4)))[:3]}'))
     b = zc.methods['_async_broadcast_service']
     sl = [c for c in walk_local_ordered(b.node) if isinstance(c, ast.Call) and call_name(c) == 'sleep']
     oks = len(sl) == 1 and isinstance(sl[0].args[0], ast.Call) and call_name(sl[0].args[0]) == 'millis_to_seconds' and norm(sl[0].args[0].args[0]) == b.params[2]
